@@ -37,6 +37,7 @@ MInit == [
     running   |-> EmptyFn,     \* loop -> BOOLEAN
     gone      |-> {},          \* loops that will never run again
     death     |-> EmptyFn,     \* loop -> time of last LoopStopped
+    stalled   |-> EmptyFn,     \* loop -> time until which its thread is descheduled (harness stall)
     nstart    |-> 0,
     bad       |-> [p \in Props |-> Ok]
 ]
@@ -53,11 +54,17 @@ InSafetyWindow(m, c, to) ==
         /\ m.death[l] >= m.call[c].start
         /\ to <= m.death[l] + SafetyMs
 
-\* c is expected to make progress: its own loop is running
-Active(m, c) == Get(m.running, m.call[c].loop, FALSE)
+\* the thread of loop l is descheduled by the harness until some time >= to
+Stalled(m, l, to) == l \in DOMAIN m.stalled /\ to <= m.stalled[l]
+\* c is expected to make progress: its own loop is running (and its thread is being scheduled), and so are the
+\* loops it may be waiting on
+\* (a thread descheduled anywhere - it may hold the in-flight marker without having started the computation - can
+\*  hold up anybody: nobody is judged idle while some thread is stalled)
+Active(m, c, to) == /\ Get(m.running, m.call[c].loop, FALSE)
+                    /\ \A l \in DOMAIN m.stalled : ~Stalled(m, l, to)
 
 IdleWaiters(m, to) ==
-    {c \in m.pend : /\ Active(m, c)
+    {c \in m.pend : /\ Active(m, c, to)
                     /\ Get(m.live, m.call[c].k, {}) = {}
                     /\ c \notin m.cancelled
                     /\ ~InSafetyWindow(m, c, to)
@@ -87,6 +94,7 @@ MStep(m, e, idx) ==
                    \* (the invocation stays "in flight" for dependency purposes until its caller has finished its
                    \*  clean-up, i.e. until that caller's CallEnd: a newcomer may still find the in-flight marker)
                    !.done = IF e.how = "ok" /\ k \notin DOMAIN @ THEN Put(@, k, e.i) ELSE @]
+    [] e.e = "Stall" -> [m0 EXCEPT !.stalled = Put(@, e.thr, e.t + e.d)]
     [] e.e = "Cancel" -> [m0 EXCEPT !.cancelled = @ \cup {e.c}]
     [] e.e = "LoopRunning" ->
         \* a loop that is run again resumes whatever was left pending on it: those invocations are in progress again
